@@ -23,7 +23,9 @@ CONSTANTS Ops,        \* subset of {"acq","nowait","rel","yield"}
           MaxOps,     \* operations per task
           MaxEnv,     \* environment actions per behaviour
           Fast,       \* fast_acquire
-          EnvKinds    \* subset of {"cancel","native"}
+          EnvKinds,   \* subset of {"cancel","native"}
+          Retry       \* TRUE: a client whose scope absorbed its cancellation opens a fresh scope and
+                      \* carries on with its remaining operations (the move_on_after pattern)
 
 VARIABLES L,          \* the lock
           E,          \* environment bookkeeping
@@ -114,11 +116,18 @@ ClientFin(t) ==
   /\ LET holding == pst.holder = t
          r == IF holding THEN LockRelease(K, L, t) ELSE [q |-> K, lk |-> L, err |-> FALSE]
          x == ScopeExit(r.q, t, Reg(K, t))
+         again == Retry /\ x.caught
+         rel == Ev("rel", t, "rel", IF r.err THEN "error" ELSE "ok", r.lk)
+         cdone == [ev |-> "cdone", t |-> t]
      IN /\ L' = r.lk
-        /\ K' = IF IsExc(x.reg) THEN Raise(x.q, t, x.reg) ELSE Ret(x.q, t)
-        /\ IF holding THEN Feed(Ev("rel", t, "rel", IF r.err THEN "error" ELSE "ok", r.lk))
-                      ELSE UNCHANGED <<pst, pbad>>
-  /\ UNCHANGED <<E, hist>>
+        /\ K' = IF again THEN SetPc(ScopeEnter(x.q, t, FALSE, INF, FALSE, "task"), t, "choose")
+                ELSE IF IsExc(x.reg) THEN Raise(x.q, t, x.reg) ELSE Ret(x.q, t)
+        /\ E' = IF again THEN [E EXCEPT !.scoped = @ \ {t}] ELSE E
+        /\ IF holding /\ again THEN Feed2(rel, cdone)
+           ELSE IF holding THEN Feed(rel)
+           ELSE IF again THEN Feed(cdone)
+           ELSE UNCHANGED <<pst, pbad>>
+  /\ UNCHANGED hist
 
 (****************************** library frames *****************************)
 LibStep(t) ==
